@@ -52,6 +52,9 @@ def _mirror_text(node):
 
 
 def run(ck):
+    ck.rule("R5", "no loop walks a live view of a container of the graph while removing from that container", floor=15)
+    from rules.c30 import live_iteration_rules
+    live_iteration_rules(ck, "R5", [("miasm/core/graph.py", "DiGraph")])
     m = ck.repo.mod(REL)
     meths = m.methods("DiGraph")
     ck.rule("R1", "adjacency state is written only by the four mutators, each edge mutation updating all three structures, mirrored", floor=6)
